@@ -555,103 +555,188 @@ def reviewedCreations : List (String × String × String) := [
 def creationOk (c : String × String × String × String) : Bool :=
   c.2.2.2 == "dtype" || c.2.2.2 == "kwargs" || c.2.2.2 == "intlit" || reviewedCreations.contains (c.1, c.2.1, c.2.2.1)
 
+/-! M2: the class `__torch_function__` is dispatched on -/
+inductive Obj | lie (t : Nat) | param (t : Nat) | tensor | other
+deriving DecidableEq, Repr
+
+def Obj.erase : Obj → Leaf
+  | .lie t | .param t => .lie t
+  | .tensor => .tensor
+  | .other => .other
+
+/-- `cls` of the classmethod: `Parameter` as soon as one operand is a `pp.Parameter` (torch dispatches on the most derived class) -/
+def clsIsParam (args : List Obj) : Bool := args.any fun o => match o with | .param _ => true | _ => false
+
+/-- `wrap(t)`: `if isinstance(t, Tensor) and not isinstance(t, cls)` → `as_subclass(t, LieTensor)` + ltype.
+Second component: is the result the SAME python object? With `cls = Parameter` a plain LieTensor in the result (e.g. the
+`self` an in-place function returns) is not an instance of `cls` and is wrapped again: same storage, new object, ltype := lt. -/
+def wrapObj (isParam : Bool) (lt : Nat) : Obj → Obj × Bool
+  | .tensor => (.lie lt, false)
+  | .lie t => if isParam then (.lie lt, false) else (.lie t, true)
+  | .param t => (.param t, true)
+  | .other => (.other, true)
+
+def torchFunctionCls (handled : List String) (name : String) (args res : List Obj) : Option (List (Obj × Bool)) :=
+  if res ≠ [] ∧ name ∈ handled then
+    match firstLtype (args.map Obj.erase) with
+    | none => none
+    | some lt => some (res.map (wrapObj (clsIsParam args) lt))
+  else some (res.map fun o => (o, true))
+
+/-! M4: what `Mul` (`*`, `@` with a LieTensor, `.mul`, `pp.mul`) does with each kind of partner -/
+inductive Partner | sameLie | lieOther (p : LT) | tensor (w : Nat) | scalar
+deriving DecidableEq, Repr
+
+/-- `*Type.Mul(X, Y)`: group × LieTensor of the same group → group product; group × any other Tensor → `Act` on "points" of
+width 3 or 4 (assertion otherwise) — an ALGEBRA LieTensor partner of width 3 / 4 (so3, rxso3) is taken for points too (whether the
+acted "points" come back tagged with the partner's ltype depends on the kernel: SO3 does, the others do not — only kind-free shape here);
+group × python scalar → NotImplementedError; algebra × anything → element-wise `torch.mul` re-wrapped with the algebra's ltype -/
+def mulSig (t : LT) (p : Partner) : Option Res :=
+  if t.onManifold then some (.lie t)
+  else match p with
+    | .sameLie => some (.lie t)
+    | .lieOther q => if q.dim = 3 ∨ q.dim = 4 then some (.tensor [q.dim]) else none
+    | .tensor w => if w = 3 then some (.tensor [3]) else if w = 4 then some (.tensor [4]) else none
+    | .scalar => none
+
+/-- `LieTensor.add(self, other, alpha)`: `other := alpha * other` first (item-level `scale`), then `addOp` -/
+def addAlphaOp (retr : β → α → α) (scale : β → β) (d : Nat) (x : T α) (a : T β) : Option (Out α) :=
+  addOp retr d x ⟨a.shape, fun k => scale (a.data k)⟩
+
+/-- `LieType.add_` of an algebra: `input.copy_(other1 + other2[..., :m])` on the expanded clone — plain torch broadcasting;
+`plus x a` is the item-level `x + a[:m]` -/
+def algAddOp (plus : α → β → α) (d : Nat) (x : T α) (a : T β) : Option (Out α) :=
+  match broadcastShapes x.shape a.shape with
+  | none => none
+  | some shape =>
+    match binop plus d d (expandClone x shape) a with
+    | none => none
+    | some r => if r.shape = shape ∧ r.last = d then some r else none
+
+/-- `LieType.Retr`: `a.Exp() * X` — a unary op on `a`, then the group product site -/
+def retrOp (exp : β → γ) (mul : γ → α → α) (dG : Nat) (x : T α) (a : T β) : Option (Out α) :=
+  binop mul dG dG ⟨a.shape, (unop exp dG a).data⟩ x
+
 /-! ## `retain_ltype` as a state machine
 
-Slots `0,1,2` are the three torch attributes (`forward_ad.make_dual`,
-`eager_transforms._wrap_tensor_for_grad`, `vmap._add_batch_dim`); slot `3` is
-`pypose.lietensor.lietensor.wrapper` — the place a *nested* `retain_ltype` writes to, because the wrapper
-closures carry `__module__ = 'pypose.lietensor.lietensor'`, `__name__ = 'wrapper'` (no `functools.wraps`).
-A value is an original function or a wrapper around a value. -/
+Slots `0,1,2` are the three torch attributes (`forward_ad.make_dual`, `eager_transforms._wrap_tensor_for_grad`,
+`vmap._add_batch_dim`); slot `3` is `pypose.lietensor.lietensor.wrapper`, slot `4` is `torch._functorch.vmap.wrapper` — the
+places a *nested* `retain_ltype` writes to (see `homeCur`).  A value is an original function or a wrapper around a value.
+The model is generic in the *home policy* `H` (where `setattr(import_module(f.__module__), f.__name__, ·)` lands), so that the
+code as it is (`homeCur`) and by-slot restoring (`homeSlot`) are two instances of the same theorems. -/
 namespace Retain
 
 inductive Fn
-  | orig (slot : Nat)      -- the torch function whose (`__module__`, `__name__`) designate `slot`
-  | wrap (f : Fn)          -- `wrap_function(f)`
+  | orig (slot : Nat)      -- an original torch function, living in `slot`
+  | wrap (f : Fn)          -- `wrap_function(f)`: a new closure object around `f`
 deriving DecidableEq, Repr
-
-/-- where `setattr(import_module(f.__module__), f.__name__, …)` writes -/
-def home : Fn → Nat
-  | .orig s => s
-  | .wrap _ => 3
 
 abbrev Table := Nat → Fn
 
 def Table.set (t : Table) (slot : Nat) (v : Fn) : Table := fun s => if s = slot then v else t s
 
+/-- a function captured in `TO_BE_WRAPPED`, with the slot it was read from -/
+abbrev Cap := Nat × Fn
+
+/-- home policy: the slot that `setattr(import_module(f.__module__), f.__name__, ·)` writes, for `f` captured from slot `s` -/
+abbrev Home := Nat → Fn → Nat
+
+/-- **the code BEFORE the D44 repair** (by-name restoring; kept as the model of the reverted code): an original designates its own slot; a wrapper closure carries
+`__module__ = 'pypose.lietensor.lietensor'`, `__name__ = 'wrapper'` (slot 3) — except the one found in slot 2
+(`vmap._add_batch_dim`) at entry, whose `__module__` the first line of `retain_ltype` has just overwritten with
+`'torch._functorch.vmap'`: it designates `torch._functorch.vmap.wrapper` (slot 4, an attribute of a PyTorch module) -/
+def homeCur : Home := fun s f => match f with
+  | .orig k => k
+  | .wrap _ => if s = 2 then 4 else 3
+
+/-- **the code as it is** (since D44: `saved = [(module, name, getattr(module, name)) …]`, `setattr(module, name, wrap(func))`,
+`finally: setattr(module, name, func)`): every captured function is wrapped in, and goes back to, the slot it was read from -/
+def homeSlot : Home := fun s _ => s
+
 /-- what the body of the `with` block (or the function wrapped by `func.jacrev`) does -/
 inductive Body
-  | ret                              -- returns normally
-  | raise                            -- raises
-  | call (slot : Nat) (k : Body)     -- calls the (patched) torch function in `slot`, then continues
-  | nest (inner : Body) (k : Body)   -- enters a nested `retain_ltype()` whose body is `inner`, then continues
+  | ret                                            -- returns normally
+  | raise                                          -- raises
+  | call (slot : Nat) (k : Body)                   -- calls the (patched) torch function in `slot`, then continues
+  | nest (ord : List Nat) (inner : Body) (k : Body) -- a nested `retain_ltype()` (its own set iteration order `ord`), then continues
+  | try_ (inner : Body) (handler : Body) (k : Body) -- `try: inner  except: handler` then continues
 deriving Repr
 
 inductive Outcome | ok | raised
 deriving DecidableEq, Repr
 
-/-- the three functions captured in `TO_BE_WRAPPED` at entry, in the (arbitrary) iteration order `ord` of the set -/
-def captured (t : Table) (ord : List Nat) : List Fn := ord.map t
+/-- `TO_BE_WRAPPED` at entry, in the (arbitrary, per context) iteration order `ord` of the set -/
+def captured (t : Table) (ord : List Nat) : List Cap := ord.map fun s => (s, t s)
 
-/-- `for func in TO_BE_WRAPPED: setattr(module(func), name(func), wrap_function(func))`;
-`failAt = some j` models an exception raised by the `j`-th iteration (import error, …) -/
-def patch (t : Table) : List Fn → Table
+/-- `for func in TO_BE_WRAPPED: setattr(module(func), name(func), wrap_function(func))` -/
+def patch (H : Home) (t : Table) : List Cap → Table
   | [] => t
-  | f :: fs => patch (t.set (home f) (.wrap f)) fs
+  | c :: cs => patch H (t.set (H c.1 c.2) (.wrap c.2)) cs
 
-def restore (t : Table) : List Fn → Table
+/-- the `finally:` loop -/
+def restore (H : Home) (t : Table) : List Cap → Table
   | [] => t
-  | f :: fs => restore (t.set (home f) f) fs
+  | c :: cs => restore H (t.set (H c.1 c.2) c.2) cs
 
-/-- run a body in table `t`; `ord` is the iteration order of every `TO_BE_WRAPPED` set.
-Result: final table, outcome, and the log of the function values the body's calls found in their slots.
-The `nest` case is `retain … inner none` written out (see `run_nest` in the proofs), so that the definition
-is plain structural recursion on the body. -/
-def run (ord : List Nat) : Table → Body → Table × Outcome × List Fn
+/-- run a body: final table, outcome, log of the function objects its calls found in their slots -/
+def run (H : Home) : Table → Body → Table × Outcome × List Fn
   | t, .ret => (t, .ok, [])
   | t, .raise => (t, .raised, [])
-  | t, .call s k => let (t', o, log) := run ord t k; (t', o, t s :: log)
-  | t, .nest inner k =>
+  | t, .call s k => let (t', o, log) := run H t k; (t', o, t s :: log)
+  | t, .nest ord inner k =>
     let fs := captured t ord
-    match run ord (patch t fs) inner with
-    | (t1, .ok, log1) => let (t', o, log) := run ord (restore t1 fs) k; (t', o, log1 ++ log)
-    | (t1, .raised, log1) => (restore t1 fs, .raised, log1)   -- the exception propagates out of the outer body
+    match run H (patch H t fs) inner with
+    | (t1, .ok, log1) => let (t', o, log) := run H (restore H t1 fs) k; (t', o, log1 ++ log)
+    | (t1, .raised, log1) => (restore H t1 fs, .raised, log1)
+  | t, .try_ inner h k =>
+    match run H t inner with
+    | (t1, .ok, l1) => let (t', o, l) := run H t1 k; (t', o, l1 ++ l)
+    | (t1, .raised, l1) =>
+      match run H t1 h with
+      | (t2, .ok, l2) => let (t', o, l) := run H t2 k; (t', o, l1 ++ l2 ++ l)
+      | (t2, .raised, l2) => (t2, .raised, l1 ++ l2)
 
-/-- `with retain_ltype(): body` — `try: patch; yield  finally: restore`.
-`failAt = some j`: the patch loop itself raises after `j` assignments. -/
-def retain (ord : List Nat) (t : Table) (body : Body) (failAt : Option Nat) : Table × Outcome × List Fn :=
+/-- `with retain_ltype(): body`; `failAt = some j`: the patch loop itself raises after `j` assignments -/
+def retain (H : Home) (ord : List Nat) (t : Table) (body : Body) (failAt : Option Nat) : Table × Outcome × List Fn :=
   let fs := captured t ord
   match failAt with
-  | some j => (restore (patch t (fs.take j)) fs, .raised, [])
+  | some j => (restore H (patch H t (fs.take j)) fs, .raised, [])
   | none =>
-    match run ord (patch t fs) body with
-    | (t', o, log) => (restore t' fs, o, log)
+    match run H (patch H t fs) body with
+    | (t', o, log) => (restore H t' fs, o, log)
 
-/-- a history of contexts entered one after the other on the same table (object reuse: the decorator form
-`@retain_ltype()` / a `jacrev` wrapper called again and again, each call returning or raising anywhere) -/
-def history (ord : List Nat) : Table → List (Body × Option Nat) → Table
+/-- contexts entered one after the other on the same table (decorator form / a `jacrev` wrapper called again and again) -/
+def history (H : Home) : Table → List (List Nat × Body × Option Nat) → Table
   | t, [] => t
-  | t, (b, fa) :: rest => history ord (retain ord t b fa).1 rest
+  | t, (ord, b, fa) :: rest => history H (retain H ord t b fa).1 rest
 
-/-- `n` contexts nested around `b` -/
-def nestN : Nat → Body → Body
+/-- a legal iteration order: exactly the three torch slots, in some order (possibly with repetitions) -/
+def okOrd (ord : List Nat) : Prop := (∀ s ∈ ord, s < 3) ∧ ∀ s, s < 3 → s ∈ ord
+
+/-- every nested context of the body iterates over the three torch slots, every call goes to one of them -/
+def Body.ok : Body → Prop
+  | .ret | .raise => True
+  | .call s k => s < 3 ∧ k.ok
+  | .nest ord inner k => okOrd ord ∧ inner.ok ∧ k.ok
+  | .try_ inner h k => inner.ok ∧ h.ok ∧ k.ok
+
+def nestN (ord : List Nat) : Nat → Body → Body
   | 0, b => b
-  | n + 1, b => .nest (nestN n b) .ret
+  | n + 1, b => .nest ord (nestN ord n b) .ret
+
 def Body.depth : Body → Nat
   | .ret | .raise => 0
   | .call _ k => k.depth
-  | .nest inner k => max (inner.depth + 1) k.depth
-/-- every call of the body goes to one of the patched slots -/
-def Body.callsIn (ord : List Nat) : Body → Prop
-  | .ret => True
-  | .raise => True
-  | .call s k => s ∈ ord ∧ Body.callsIn ord k
-  | .nest inner k => Body.callsIn ord inner ∧ Body.callsIn ord k
+  | .nest _ inner k => max (inner.depth + 1) k.depth
+  | .try_ inner h k => max inner.depth (max h.depth k.depth)
 
-/-- every slot of `ord` holds the wrapper of its original (the state inside a `retain_ltype()` block) -/
-def Patched (ord : List Nat) (t : Table) : Prop := ∀ s ∈ ord, t s = Fn.wrap (Fn.orig s)
+/-- every torch slot holds the wrapper of its original -/
+def Patched (t : Table) : Prop := ∀ s, s < 3 → t s = Fn.wrap (Fn.orig s)
 
-/-- the table before any patching: every slot holds its original -/
 def pristine : Table := fun q => Fn.orig q
+
+/-- every torch slot holds SOME wrapper -/
+def Wrapped (t : Table) : Prop := ∀ s, s < 3 → ∃ g, t s = Fn.wrap g
 
 end Retain
 
